@@ -47,6 +47,10 @@ func (b *builder) newAddress(kind, net string) (address.Address, error) {
 // sameAbs compares an abstraction with the specification's abstract string
 // (decoded generically from JSON).
 func sameAbs(a absString, form string, s map[string]any) bool {
+	if form == "b58" && a.form == "bech" && a.alt != nil {
+		// a Base58Check string that starts like a segwit prefix
+		a = absString{form: "b58", b58: *a.alt}
+	}
 	if a.form != form {
 		return false
 	}
@@ -60,7 +64,9 @@ func sameAbs(a absString, form string, s map[string]any) bool {
 		return a.bech == want
 	case "b58":
 		want := b58Abs{V: num("v"), Plen: num("plen"), Ck: str("ck"), Defect: str("defect")}
-		return a.b58 == want
+		got := a.b58
+		got.SegPrefix = false // an accident of the payload, not of the kind
+		return got == want
 	}
 	return false
 }
@@ -280,10 +286,16 @@ func (b *builder) runVec32(c *vrun.Ctx, rc rawCase) error {
 	if err != nil || hrp != cs.Hrp || !bytes.Equal(dec, data) || ver != wantVer {
 		c.Violation("bech32-decode:round-trip", fmt.Sprintf("DecodeGeneric(%q) = %q %x %v %v", ex.Good, hrp, dec, ver, err), rc.replay())
 	}
-	back, err := bech32.ConvertBits(dec[1:], 5, 8, false)
-	c.AddEval(1)
-	if err == nil && !bytes.Equal(back, prog) || err != nil {
-		c.Violation("bech32-convertbits:round-trip", fmt.Sprintf("ConvertBits 5->8 of %x gives %x (%v), program %x", dec[1:], back, err, prog), rc.replay())
+	if len(dec) > 0 {
+		back, err := bech32.ConvertBits(dec[1:], 5, 8, false)
+		c.AddEval(1)
+		if err != nil || !bytes.Equal(back, prog) {
+			c.Violation("bech32-convertbits:round-trip", fmt.Sprintf("ConvertBits 5->8 of %x gives %x (%v), program %x", dec[1:], back, err, prog), rc.replay())
+		}
+	}
+	// the encoder lower-cases the prefix it is given
+	if up, err := bech32.Encode(strings.ToUpper(cs.Hrp), data); err != nil || up != enc0 {
+		c.Violation("bech32-encode:upper-case-prefix", fmt.Sprintf("Encode(%q, ...) = %q (%v), expected %q", strings.ToUpper(cs.Hrp), up, err, enc0), rc.replay())
 	}
 	// the specification's strings through DecodeAddress
 	for _, s := range []string{ex.Good, ex.Wrong, strings.ToUpper(ex.Good)} {
